@@ -334,10 +334,28 @@ Theorem C02live_run_invariant_initial : forall ca cb st,
 Proof. exact NI_init. Qed.
 Print Assumptions C02live_run_invariant_initial.
 
+(* STEP 5, the property's own words for the data part: every octet accepted by send (the L0 octets
+   written so far) is eventually DELIVERED TO THE PEER APPLICATION, on every fair run of the regime:
+   before the clock has advanced by n * W3 + m * Da (n: octets unacknowledged, m: octets the peer
+   application has still to read, W3 = RTTE_MAX_RTO + 2 Dt + Dack). *)
+Theorem C02live_all_written_bytes_eventually_delivered_partial : forall x Dt Da Dack n m evs fa st st' L0,
+  0 <= Dt -> 0 <= Dack -> 0 <= Da ->
+  NI st -> opts_ok st -> dl_sync Da fa st ->
+  run_all (safe3 x Dack) st evs -> fair_run Dt Da fa st evs -> net_run st evs = Ok st' ->
+  L0 <= l_len (ep_written (net_get st x)) ->
+  L0 - una_off (net_get st x) <= Z.of_nat n ->
+  L0 - read_off (net_get st (side_other x)) <= Z.of_nat m ->
+  net_now st x + Z.of_nat n * W3 Dt Dack + Z.of_nat m * Da < net_now st' x ->
+  exists pre post st1, evs = pre ++ post /\ net_run st pre = Ok st1 /\ net_run st1 post = Ok st' /\
+                       L0 <= read_off (net_get st1 (side_other x)).
+Proof. exact all_written_bytes_eventually_delivered. Qed.
+Print Assumptions C02live_all_written_bytes_eventually_delivered_partial.
+
 (* NON-VACUITY of the composition: a run from net_init with a LOSSY prefix (A's data segment is
-   dropped) and a fair suffix (retransmission at the RTO deadline, delivery, delayed ACK, then more
-   than 5 rounds of time) satisfies EVERY hypothesis of the step-5 theorem - the run hypotheses
-   [safe3] are checked in every state of the suffix by a decision procedure proved sound - ... *)
+   dropped) and a fair suffix (retransmission at the RTO deadline, delivery, the application reads,
+   delayed ACK, then more than 5 rounds of time) satisfies EVERY hypothesis of the step-5 theorem -
+   the run hypotheses [safe3] are checked in every state of the suffix by a decision procedure proved
+   sound - ... *)
 Theorem C02live_composition_hypotheses_satisfiable :
   exists st0 st st',
     net_init ex_cfg_a ex_cfg_b = Ok st0 /\ net_run st0 wit_prefix = Ok st /\
@@ -345,7 +363,8 @@ Theorem C02live_composition_hypotheses_satisfiable :
     run_all (safe3 SA 10000) st wit_suffix /\ fair_run 5000 5000 (fa_init 5000 5000 st) st wit_suffix /\
     net_run st wit_suffix = Ok st' /\
     5 <= l_len (ep_written (net_get st SA)) /\ 5 - una_off (net_get st SA) <= Z.of_nat 5 /\
-    net_now st SA + Z.of_nat 5 * W3 5000 10000 < net_now st' SA.
+    5 - read_off (net_get st SB) <= Z.of_nat 5 /\ 0 <= 5000 /\ 0 <= 5000 /\ 0 <= 10000 /\
+    net_now st SA + Z.of_nat 5 * W3 5000 10000 + Z.of_nat 5 * 5000 < net_now st' SA.
 Proof. exact composition_hypotheses_satisfiable. Qed.
 Print Assumptions C02live_composition_hypotheses_satisfiable.
 
@@ -354,12 +373,12 @@ Theorem C02live_witness_prefix_is_lossy : In (NDrop SB 2) wit_prefix.
 Proof. exact wit_prefix_lossy. Qed.
 Print Assumptions C02live_witness_prefix_is_lossy.
 
-(* ... so the theorem applies: the run passes through a state in which all 5 octets are acknowledged
-   and accepted by B's receive path *)
+(* ... so the theorem applies: the run passes through a state in which all 5 octets have been handed
+   to B's application *)
 Theorem C02live_composition_applies :
   exists st0 st st',
     net_init ex_cfg_a ex_cfg_b = Ok st0 /\ net_run st0 wit_prefix = Ok st /\ net_run st wit_suffix = Ok st' /\
     exists pre post st1, wit_suffix = pre ++ post /\ net_run st pre = Ok st1 /\ net_run st1 post = Ok st' /\
-                         5 <= una_off (net_get st1 SA) /\ 5 <= rcv_off (net_get st1 SB).
+                         5 <= read_off (net_get st1 SB).
 Proof. exact composition_applies. Qed.
 Print Assumptions C02live_composition_applies.
